@@ -450,6 +450,10 @@ MANIFEST = dict(
     'object whose iPu / noise_var were re-assigned after a first use.  The external-'
     'interference variants (WhiteningBD, EnhancedBD) are not decided.',
     note='svd/pinv/matrix_rank contract stubs with generic-rank assumption; '
-    'floats as reals; small sizes; ext-int variants outside',
+    'floats as reals; small sizes; ext-int variants outside'
+    ' Concrete data-representation / scale / boundary probes of the real'
+    ' code (dtype, container and memory-layout variants, argument'
+    ' immutability, magnitudes) accompany the symbolic runs; they are'
+    ' differential runs, not solver verdicts.',
     technique='symbolic execution on object arrays + contract stubs + '
     'linearised QF_LRA prover and NRA (z3)')
